@@ -16,6 +16,8 @@ CONSTANTS
  DevNoAtomResname = FALSE
  DevOrderedPairs = FALSE
  DevGateOnce = TRUE
+ DevGateBuildOnly = FALSE
+ DevMissingCache = FALSE
  DevDegree = FALSE
 INVARIANT GateIsExpected
 CHECK_DEADLOCK FALSE
